@@ -36,6 +36,7 @@ import (
 	"github.com/sassoftware/relic/v8/internal/activation"
 	"github.com/sassoftware/relic/v8/internal/zhttp"
 	"github.com/sassoftware/relic/v8/lib/certloader"
+	"github.com/sassoftware/relic/v8/lib/verifhook"
 	"github.com/sassoftware/relic/v8/lib/x509tools"
 	"github.com/sassoftware/relic/v8/server"
 )
@@ -198,8 +199,11 @@ func (d *Daemon) Close() error {
 	d.eg.Go(func() error {
 		ctx, cancel := context.WithTimeout(context.Background(), 5*time.Minute)
 		defer cancel()
+		verifhook.Emit("ShutdownBegin")
 		err := d.httpServer.Shutdown(ctx)
+		verifhook.Emit("ShutdownDrained")
 		err2 := d.server.Close()
+		verifhook.Emit("ShutdownEnd")
 		if err == nil {
 			err = err2
 		}
